@@ -958,10 +958,12 @@ def parse_qsl(qs, keep_blank_values=True, encoding=DEFAULT_ENCODING):
     for pair in pairs:
         if not pair:
             continue
-        key, _, value = pair.partition('=')
+        key, sep, value = pair.partition('=')
         if not value:
             if keep_blank_values:
-                value = None
+                # 'k' has no value, 'k=' has an empty one (this is
+                # also how QueryParamDict.to_text() writes them)
+                value = '' if sep else None
             else:
                 continue
         key = unquote(key.replace('+', ' '))
